@@ -1416,7 +1416,11 @@ def gen_model_spec(rng, k):
 
 IGNORED_ATTRS = {'_log', '_logger', 'log', '_param_dict', '_derived_dict', '_opacity_cache', '_cia_cache', '_ktable_cache',
                  '_radis_cache', 'sed', '_func', '_fit_params', '_derived_params', '_fitting_parameters',
-                 '_derived_parameters', '_initialized', 'sigma_xsec', '_total_contribution', '_total_contrib'}
+                 '_derived_parameters', '_initialized', 'sigma_xsec', '_total_contribution', '_total_contrib',
+                 # bookkeeping that depends on the order in which gases were added (the file keeps active gases first);
+                 # the mixing profiles are compared by molecule name instead
+                 '_active_mask', '_inactive_mask', '_mix_profile', 'active_mixratio_profile', 'inactive_mixratio_profile',
+                 'mu_profile'}
 ATTR_TO_ARG = {'_limit_slope': 'limit_slope', 'new_method': 'new_path_method', 'kappa_ir': 'kappa_irr',
                '_iso_temp': 'T', '_mie_mix': 'mix_ratio', '_cloud_pressure': 'clouds_pressure', '_ngauss': 'ngauss'}
 
@@ -1632,6 +1636,23 @@ def _eval_model(ctx, scratch, spec, stream='model'):
                        ('temperature', m._temperature_profile, m2._temperature_profile),
                        ('chemistry', m._chemistry, m2._chemistry)):
         ok = compare_component(ctx, slot, a, b, case) and ok
+    try:
+        names1 = sorted(list(m._chemistry.activeGases) + list(m._chemistry.inactiveGases))
+        names2 = sorted(list(m2._chemistry.activeGases) + list(m2._chemistry.inactiveGases))
+        if names1 != names2 or sorted(m._chemistry.activeGases) != sorted(m2._chemistry.activeGases):
+            ctx.violation('reload-gases', 'gases %r reloaded as %r' % (names1, names2), case)
+            ok = False
+        else:
+            for name in names1:
+                if not values_equal(m._chemistry.get_gas_mix_profile(name), m2._chemistry.get_gas_mix_profile(name)):
+                    ctx.violation('reload-mixprofile:' + name, 'mixing profile of %s differs after reload' % name, case)
+                    ok = False
+        if not values_equal(m._chemistry.muProfile, m2._chemistry.muProfile):
+            ctx.violation('reload-muprofile', 'mean molecular weight profile differs after reload', case)
+            ok = False
+    except Exception as e:  # noqa
+        ctx.violation('reload-chemistry-unusable', 'chemistry of the reloaded model cannot be queried: %r' % (e,), case)
+        ok = False
     g1 = {g.molecule: g for g in getattr(m._chemistry, '_gases', [])}
     g2 = {g.molecule: g for g in getattr(m2._chemistry, '_gases', [])}
     if sorted(g1) != sorted(g2):
@@ -1727,7 +1748,96 @@ def special_specs():
     return out
 
 
+# falsy-but-valid constructor values (exact zeros, False, empty lists): a write() that tests `if value:` instead of
+# `if value is not None:` drops exactly these.  (slot, class, keyword values, minimal other keywords)
+FALSY = [
+    ('planet', 'Planet', dict(impact_param=0.0), {}),
+    ('planet', 'Planet', dict(albedo=0.0), {}),
+    ('planet', 'Planet', dict(transit_time=0.0), {}),
+    ('planet', 'Planet', dict(orbital_period=0.0), {}),
+    ('star', 'BlackbodyStar', dict(magnitudeK=0.0), {}),
+    ('star', 'BlackbodyStar', dict(metallicity=0.0), {}),
+    ('star', 'BlackbodyStar', dict(distance=0), {}),
+    ('temperature', 'Guillot2010', dict(T_int=0.0), dict(T_irr=1400.0)),
+    ('temperature', 'Guillot2010', dict(alpha=0.0), dict(T_irr=1400.0)),
+    ('temperature', 'NPoint', dict(smoothing_window=0), dict(T_surface=1500.0, T_top=400.0)),
+    ('temperature', 'NPoint', dict(temperature_points=[], pressure_points=[]), dict(T_surface=1500.0, T_top=400.0)),
+    ('gas', 'ConstantGas', dict(mix_ratio=0.0), {}),
+    ('gas', 'TwoLayerGas', dict(mix_ratio_smoothing=0), dict(mix_ratio_surface=1e-4, mix_ratio_top=1e-6)),
+    ('gas', 'PowerGas', dict(alpha=0.0), dict(mix_ratio_surface=1e-4, beta=2e4, gamma=10.0)),
+    ('gas', 'PowerGas', dict(beta=0.0), dict(mix_ratio_surface=1e-4, alpha=1.0, gamma=10.0)),
+    ('gas', 'PowerGas', dict(gamma=0.0), dict(mix_ratio_surface=1e-4, alpha=1.0, beta=2e4)),
+    ('gas', 'PowerGas', dict(beta=0.0), {}),            # the other coefficients from the automatic (H2O) profile
+    ('gas', 'PowerGas', dict(alpha=0.0, gamma=0.0), {}),
+    ('gas', 'ArrayGas', dict(mix_ratio_array='zeros'), {}),
+    ('chemistry', 'TaurexChemistry', dict(fill_gases=['H2', 'He'], ratio=0.0), {}),
+    ('chemistry', 'TaurexChemistry', dict(fill_gases=['H2', 'He', 'N2'], ratio=[0.0, 0.0]), {}),
+    ('contribution', 'SimpleCloudsContribution', dict(clouds_pressure=0.0), {}),
+    ('contribution', 'FlatMieContribution', dict(flat_mix_ratio=0.0), {}),
+    ('contribution', 'FlatMieContribution', dict(flat_topP=0.0), dict(flat_mix_ratio=1e-7, flat_bottomP=1e4)),
+    ('contribution', 'FlatMieContribution', dict(flat_bottomP=0.0), dict(flat_mix_ratio=1e-7, flat_topP=1.0)),
+    ('contribution', 'LeeMieContribution', dict(lee_mie_mix_ratio=0.0), {}),
+    ('contribution', 'LeeMieContribution', dict(lee_mie_q=0.0), dict(lee_mie_mix_ratio=1e-8)),
+    ('contribution', 'LeeMieContribution', dict(lee_mie_topP=0.0), dict(lee_mie_mix_ratio=1e-8, lee_mie_bottomP=1e4)),
+    ('contribution', 'CIAContribution', dict(cia_pairs=[]), {}),
+    ('model', 'TransmissionModel', dict(new_path_method=False), {}),
+    ('model', 'EmissionModel', dict(ngauss=1), {}),
+]
+
+
+def falsy_label(e):
+    return '%s.%s' % (e[1], '+'.join(sorted(e[2])))
+
+
+def spec_nlayers(spec):
+    if spec.get('pressure') is not None:
+        return int(spec['pressure']['kw'].get('nlayers', 100))
+    return int(spec['model'].get('kw', {}).get('nlayers', 100))
+
+
+def apply_falsy(spec, e):
+    slot, cls, kw, base = e
+    kw = dict(kw)
+    if kw.get('mix_ratio_array') == 'zeros':
+        kw['mix_ratio_array'] = dict(array=[0.0] * spec_nlayers(spec))
+    if slot in ('planet', 'star'):
+        spec[slot]['kw'].update(kw)
+    elif slot == 'temperature':
+        if spec['temperature']['cls'] == cls:
+            spec['temperature']['kw'].update(kw)
+        else:
+            spec['temperature'] = dict(cls=cls, kw=dict(base, **kw))
+    elif slot == 'gas':
+        mol = 'H2O'
+        gases = [g for g in spec['chemistry'].get('gases', []) if g['kw'].get('molecule_name') != mol]
+        if not any(g['kw'].get('molecule_name') in MOLS for g in gases):
+            gases.append(dict(cls='ConstantGas', kw=dict(molecule_name='CH4', mix_ratio=1e-5)))
+        gases.append(dict(cls=cls, kw=dict(base, molecule_name=mol, **kw)))
+        spec['chemistry']['gases'] = gases
+    elif slot == 'chemistry':
+        spec['chemistry']['kw'] = kw
+        spec['chemistry']['gases'] = [g for g in spec['chemistry'].get('gases', [])
+                                      if g['kw'].get('molecule_name') not in ('H2', 'He', 'N2')]
+    elif slot == 'contribution':
+        spec['contributions'] = [c for c in spec['contributions'] if c['cls'] != cls] + [dict(cls=cls, kw=dict(base, **kw))]
+    elif slot == 'model':
+        spec['model']['cls'] = cls
+        mk = {k: v for k, v in spec['model'].get('kw', {}).items() if k in ('nlayers', 'atm_min_pressure', 'atm_max_pressure')}
+        mk.update(kw)
+        spec['model']['kw'] = mk
+    spec['label'] = 'falsy:' + falsy_label(e)
+    return spec
+
+
 def stream_model(ctx, scratch):
+    # fixed quota: every falsy-but-valid constructor value once on the reference configuration ...
+    for e in FALSY:
+        s = apply_falsy(base_spec(), e)
+        try:
+            eval_model(ctx, scratch, s, stream='model-falsy')
+            ctx.bucket('model-falsy:evaluated')
+        except InvalidSpec as ex:
+            ctx.malformed_outcome('falsy-invalid:%s:%s' % (falsy_label(e), ex))
     for s in special_specs():
         try:
             eval_model(ctx, scratch, s, stream='model-special')
@@ -1738,6 +1848,9 @@ def stream_model(ctx, scratch):
     want = ctx.n(80, 1500)
     while done < want and k < 4 * want:
         spec = gen_model_spec(ctx.rng, k)
+        if k % 3 == 0:          # ... and one of them injected into every third random configuration
+            spec = apply_falsy(spec, FALSY[int(ctx.rng.integers(len(FALSY)))])
+            ctx.bucket('model:falsy-injected')
         k += 1
         try:
             eval_model(ctx, scratch, spec)
@@ -1796,7 +1909,7 @@ def replay(ctx, case):
             eval_spectrum(ctx, scratch, case)
         elif s == 'spectrum-reuse':
             eval_spectrum_reuse(ctx, scratch, case)
-        elif s in ('model', 'model-special'):
+        elif s in ('model', 'model-special', 'model-falsy'):
             eval_model(ctx, scratch, case['spec'], stream=s)
         else:
             raise C.InfraError('unknown C16 case ' + repr(s))
